@@ -69,8 +69,12 @@ impl ISocketConnection for DirectInprocConnection {
         // `send()` consumes the batch even when it does not complete; keep a (ref-counted)
         // copy so that the refused message can be handed back to the caller.
         let refused = returned.clone();
-        let timeout_dur = self.sndtimeo.unwrap_or(Duration::from_secs(300));
-        match tokio::time::timeout(timeout_dur, self.peer_queue_sender.send(returned)).await {
+        let send_fut = self.peer_queue_sender.send(returned);
+        let sent = match self.sndtimeo {
+          None => Ok(send_fut.await), // SNDTIMEO = -1: wait until there is room.
+          Some(timeout_dur) => tokio::time::timeout(timeout_dur, send_fut).await,
+        };
+        match sent {
           Ok(Ok(())) => {
             if !self.peer_queue_sender.is_full() {
               if self.is_congested.swap(false, Ordering::AcqRel) {
